@@ -55,6 +55,10 @@ def cases(ctx):
                     continue
                 tz = ZONES[i % len(ZONES)]
                 add(((y, m, d), (y + 30 if y < 2170 else 2230, m, min(d, 28)), None), None, tz, "from+until")
+                if not ctx.quick and y in (2000, 2049):
+                    for tz2 in ZONES:
+                        if tz2 != tz:
+                            add(((y, m, d), (y + 1, m, min(d, 28)), None), None, tz2, "from+until all zones")
                 i += 1
     for y in years:
         for (m, d) in [(1, 1), (3, 5), (12, 31), (2, 28), (7, 13)]:
